@@ -172,6 +172,7 @@ class GoVerifier(GoExec, SpecMixin, CallsMixin, StmtsMixin, LibMixin):
                 raise
             self.run_defers(state)
             return None
+        self.rtype_stack = [[fld['Type'].get('t') for fld in (decl['Type'].get('Results') or {}).get('List', []) or [] for _ in (fld.get('Names') or [None])]]
         exits = self.run_paths(st, run)
         n_ret = n_pan = 0
         for (how, state, info) in exits:
